@@ -182,3 +182,51 @@ Example C06_example_failed_encoder :
   snd r = [EWrote [97;98]; EConsult 2 2 false; EWrote [99]; EConsult 5 5 false; EWrote [100;101]; EConsult 7 7 true]
   /\ map (fun n => lookup (files (est_s (fst r))) n) [Active; Arch 0] = [None; Some [97;98;88;89;99;100;101]].
 Proof. vm_compute. split; reflexivity. Qed.
+
+(* ---- the io::Write layer (Model/LogWriter.v): LogWriter::write under std's write_all, the sink
+   below it answering each call with a short count, zero, an interruption or an error ---- *)
+From L4 Require Model.LogWriter Proofs.LogWriter.
+Module LW := L4.Model.LogWriter.
+Module LWP := L4.Proofs.LogWriter.
+
+(* One write_all call, for every script of answers and every buffer: the sink accepted a prefix
+   of the buffer, the count moved by exactly that many bytes, and Ok means the whole buffer. *)
+Theorem C06_count_moves_by_what_the_sink_accepted :
+  forall (script : list LW.answer) (w : LW.lw) (buf : LW.bytes) (w' : LW.lw) (r : LW.ares) (rest : list LW.answer),
+    LW.write_all w buf script = (w', r, rest) ->
+    exists k : nat,
+      (k <= length buf)%nat /\
+      LW.taken w' = LW.taken w ++ firstn k buf /\
+      LW.len w' = LW.len w + N.of_nat k /\
+      (r = LW.AOk -> k = length buf).
+Proof. exact LWP.write_all_exact. Qed.
+Print Assumptions C06_count_moves_by_what_the_sink_accepted.
+
+(* Through any encoder (any list of chunks), whatever happens to each call - success, short
+   counts, interruptions, a failure half-way: the count stays "size at open + bytes accepted". *)
+Theorem C06_count_is_accepted_bytes_through_any_encoder :
+  forall (base : N) (chunks : list LW.bytes) (script : list LW.answer) (w w' : LW.lw) (r : LW.ares) (rest : list LW.answer),
+    LWP.accounted base w -> LW.write_chunks w chunks script = (w', r, rest) -> LWP.accounted base w'.
+Proof. exact LWP.write_chunks_accounted. Qed.
+Print Assumptions C06_count_is_accepted_bytes_through_any_encoder.
+
+Theorem C06_encoder_ok_means_all_chunks_counted :
+  forall (chunks : list LW.bytes) (script : list LW.answer) (w w' : LW.lw) (rest : list LW.answer),
+    LW.write_chunks w chunks script = (w', LW.AOk, rest) ->
+    LW.taken w' = LW.taken w ++ concat chunks /\ LW.len w' = LW.len w + LW.blen (concat chunks).
+Proof. exact LWP.write_chunks_ok. Qed.
+Print Assumptions C06_encoder_ok_means_all_chunks_counted.
+
+(* Short counts and interrupted calls are not failures, and with enough answers the buffer is
+   written in full (every non-zero answer takes at least one byte). *)
+Theorem C06_short_and_interrupted_writes_are_invisible :
+  forall (script : list LW.answer) (w : LW.lw) (buf : LW.bytes),
+    Forall LWP.benign script ->
+    (forall w' r rest, LW.write_all w buf script = (w', r, rest) -> r <> LW.AErr) /\
+    ((length buf <= LWP.tooks script)%nat -> exists w' rest, LW.write_all w buf script = (w', LW.AOk, rest)).
+Proof.
+  exact (fun script w buf Hb =>
+    conj (fun w' r rest H => LWP.interrupts_invisible script w buf w' r rest Hb H)
+         (LWP.enough_answers_finish script w buf Hb)).
+Qed.
+Print Assumptions C06_short_and_interrupted_writes_are_invisible.
